@@ -1216,6 +1216,7 @@ func (fv *FuncVerifier) execRange(st *State, env *Env, x *ast.RangeStmt, label s
 			},
 			func(st *State) []Term { return []Term{Le(IntLit(0), getIt(st)), Le(getIt(st), w.SeqLen(s))} })
 	case *types.Map:
+		fv.nondet = append(fv.nondet, "range over a map (arbitrary order)")
 		m := fv.eval(st, env, x.X)
 		ksSort := w.SeqSort(w.mapKV[m.Sort][0])
 		ks := fv.fresh(fmt.Sprintf("ks%d", ord), ksSort)
@@ -1365,6 +1366,7 @@ func (fv *FuncVerifier) evalIterator(st *State, env *Env, e ast.Expr) iterInfo {
 		}
 	}
 	v := fv.eval(st, env, e)
+	fv.nondet = append(fv.nondet, "range over unknown iterator")
 	fv.note("range over iterator %s at %s: yielded values unconstrained, iteration may have arbitrary effects", exprString(e), fv.pos(e.Pos()))
 	return iterInfo{val: v, pure: false}
 }
